@@ -139,4 +139,42 @@ Section Row.
     destruct vs as [|v vs]; [discriminate|]. cbn in Hl. injection Hl as Hl.
     unfold toks_of. cbn [combine map fst snd]. rewrite fmt_idem. f_equal. apply IH, Hl.
   Qed.
+
+  (* mapping entries for columns the line does not have are skipped by the loader *)
+  Lemma mapping_from_app i a b :
+    mapping_from i (a ++ b)%list = (mapping_from i a ++ mapping_from (i + List.length a) b)%list.
+  Proof.
+    revert i. induction a as [|c a IH]; intros i.
+    - cbn [app List.length]. rewrite Nat.add_0_r. reflexivity.
+    - unfold mapping_from. cbn [app enum_from map List.length]. f_equal.
+      fold (mapping_from (S i) (a ++ b)%list). rewrite IH. unfold mapping_from.
+      replace (i + S (List.length a))%nat with (S i + List.length a)%nat by lia. reflexivity.
+  Qed.
+
+  Lemma fill_app ascii : forall m1 m2 toks p,
+    fill tok_float tok_int ascii (m1 ++ m2)%list toks p
+    = (p1 <- fill tok_float tok_int ascii m1 toks p ;; fill tok_float tok_int ascii m2 toks p1).
+  Proof.
+    induction m1 as [|[a [s c]] m1 IH]; intros m2 toks p; [reflexivity|].
+    cbn [app fill]. destruct (List.length toks <=? c)%nat; [apply IH|].
+    destruct (cast tok_float tok_int (if ascii then a ++ "_" else a) (nth c toks "")); [apply IH|reflexivity].
+  Qed.
+
+  Lemma fill_skip ascii : forall i ex toks p, (List.length toks <= i)%nat ->
+    fill tok_float tok_int ascii (mapping_from i ex) toks p = Ok p.
+  Proof.
+    intros i ex. revert i. induction ex as [|c ex IH]; intros i toks p H; [reflexivity|].
+    unfold mapping_from. cbn [enum_from map fst snd fill]. fold (mapping_from (S i) ex).
+    replace (List.length toks <=? i)%nat with true by (symmetry; apply Nat.leb_le; exact H).
+    apply IH. lia.
+  Qed.
+
+  Lemma fill_extra ascii cs ex vs p : List.length vs = List.length cs ->
+    fill tok_float tok_int ascii (mapping_from 0 (cs ++ ex)%list) (toks_of cs vs) p
+    = fill tok_float tok_int ascii (mapping_from 0 cs) (toks_of cs vs) p.
+  Proof.
+    intros Hl. rewrite mapping_from_app, fill_app.
+    destruct (fill tok_float tok_int ascii (mapping_from 0 cs) (toks_of cs vs) p) as [p1|]; [|reflexivity].
+    cbn [bind]. apply fill_skip. rewrite toks_length by exact Hl. cbn. lia.
+  Qed.
 End Row.
